@@ -13,7 +13,8 @@ NAMESPACE = "Simu.C01"
 THEOREMS = ["edge_shared_by_two", "split_inv", "swap_inv", "collapse_inv", "rename_inv", "step_inv", "reach_inv",
             "split_chi", "swap_chi", "collapse_chi", "rename_chi", "step_chi", "reach_chi",
             "collapse_closed_unconditional", "split_volume", "genus0_start",
-            "split_refines", "swap_refines", "concrete_split_inv", "concrete_swap_inv"]
+            "split_refines", "swap_refines", "concrete_split_inv", "concrete_swap_inv",
+            "split_checks_sound", "swap_checks_sound"]
 GEN = ["RemeshConsts"]
 
 
